@@ -291,8 +291,9 @@ def c10_tasks(pid, tier, repo, seed, R):
 def c03_tasks(pid, tier, repo, seed, R):
     import json as _json
     tasks = def_tasks(pid, tier, repo, seed, R)
-    # inherited Sequence mixins with loops / generator expressions (index, count, __contains__): outside the executed
-    # subset -> bounded differential sweep against list (labelled bounded, never counted as proved)
+    # inherited Sequence mixins: __contains__, index(value) and count(value) are PROVED (loop invariants in contracts/tree.py);
+    # the bounded differential sweep against list stays as the stand-in for index with start / stop (labelled bounded,
+    # never counted as proved) and as a CPython cross-check of the proved ones
     lists = [c for c in concrete_classes(R) if R["classes"][c]["kind"] == "list"]
     pick = lists if tier == "thorough" else [c for c in lists if c in ("JSONList", "MemoryBufferedJSONAttrList", "RedisList")]
     sweeps = [(f"{c}.index/count/__contains__@stdlib:Sequence", "replay/harness.py",
